@@ -24,13 +24,14 @@ package validation
 // an arbitrary predicate and signatures are arbitrary bytes; 1 = signatures are
 // honest ed25519.Sign outputs (by an arbitrary seed over this transaction's
 // signature hash, over the signature hash of a sibling transaction that
-// differs in one committed field (P2WPKH and 1-of-1 only), or over an arbitrary message) or short junk,
+// differs in one committed field (P2WPKH and 1-of-1 only), or over an arbitrary message; also a real signature over this transaction's
+// signature hash cut to 63 bytes or with one arbitrary byte appended) or short junk,
 // and Verify is true exactly on honest triples, so that every counterexample
 // replays natively.
 
 //verif:property C02
 //verif:bound transaction shape: version 1, one BTM spend input (amount 10000000000, source id/position arbitrary), one BTM output of amount-40000000 to a program [OP_1, arbitrary byte], time range arbitrary but not expired (0 or >= block height), serialized size 300, block version 1 at arbitrary height (gas available to the program: 199700)
-//verif:bound P2WPKH: witness of 0..3 items: [junk of 2 bytes]* then signature item, then key item of 31..33 arbitrary bytes (closed world: the committed key, the public key of an arbitrary seed, or 31/33 arbitrary bytes)
+//verif:bound P2WPKH: witness of 0..3 items: [junk of 2 bytes]* then signature item, then key item of 31..33 arbitrary bytes (closed world: the committed key, the public key of an arbitrary seed, the committed key cut to 31 bytes or with one arbitrary byte appended)
 //verif:bound P2WSH: redeem script P2SPMultiSig with (keys, quorum) = (1,1) (2,1) (2,2) quick, (3,2) (3,3) thorough; witness = [optional junk item] [quorum or quorum-1 signature items] [script item]; script item = the committed script, the same keys with another quorum, the script with one key replaced, or (1-of-1 quick; 2-of-2 and 2-of-3 thorough, open world) arbitrary bytes of the committed script's length
 //verif:assume SHA3-256 and RIPEMD-160 are uninterpreted and collision-free; ed25519.Verify as stated above (world 0: uninterpreted predicate; world 1: override verifC02Verify); ed25519.NewKeyFromSeed/Sign are uninterpreted for the solver with the axiom Verify(pub(seed), msg, Sign(seed||pub(seed), msg))
 //verif:assume error texts are not the subject: vm.Disassemble and hex.EncodeToString (used by vm.wrapErr only on this path) are cut for the solver
@@ -39,10 +40,10 @@ package validation
 //verif:override crypto/ed25519.Verify -> verifC02Verify
 //verif:override github.com/bytom/bytom/protocol/vm.Disassemble -> verifC02Disassemble
 //verif:override encoding/hex.EncodeToString -> verifC02Hex
-//verif:obligation fn=VerifC02P2WPKH args=2,0;1,0 nooverride=verifC02Verify validate=12 secs=3000 timeout=120000
-//verif:obligation fn=VerifC02P2WPKH args=2,1;0,1 validate=12 secs=3000 timeout=120000
-//verif:obligation fn=VerifC02P2WSH args=1,1,0,4,0;2,1,0,3,0;2,2,0,3,0 nooverride=verifC02Verify validate=10 secs=3000 timeout=120000
-//verif:obligation fn=VerifC02P2WSH args=1,1,0,4,1;2,1,0,3,1;2,2,0,3,1;2,2,2,1,1 validate=10 secs=3000 timeout=120000
+//verif:obligation fn=VerifC02P2WPKH args=2,0;1,0 nooverride=verifC02Verify validate=24 secs=3000 timeout=120000
+//verif:obligation fn=VerifC02P2WPKH args=2,1;0,1 validate=24 secs=3000 timeout=120000
+//verif:obligation fn=VerifC02P2WSH args=1,1,0,4,0;2,1,0,3,0;2,2,0,3,0 nooverride=verifC02Verify validate=24 secs=3000 timeout=120000
+//verif:obligation fn=VerifC02P2WSH args=1,1,0,4,1;2,1,0,3,1;2,2,0,3,1;2,2,2,1,1 validate=24 secs=3000 timeout=120000
 //verif:obligation fn=VerifC02P2WPKH args=3,0 nooverride=verifC02Verify tier=thorough secs=3000 timeout=120000
 //verif:obligation fn=VerifC02P2WPKH args=3,1 tier=thorough secs=3000 timeout=120000
 //verif:obligation fn=VerifC02P2WSH args=2,2,0,4,0;2,2,1,3,0;3,2,0,4,0;3,3,0,3,0 nooverride=verifC02Verify tier=thorough secs=3000 timeout=120000
@@ -85,8 +86,8 @@ func verifC02Shaped(name string, lo, hi int) []byte {
 }
 
 // a key-shaped witness item. Closed world: the committed key, the public key of
-// an arbitrary seed, or arbitrary bytes of 31 or 33 bytes (values the native
-// replay reproduces); open world: arbitrary bytes of 31..33 bytes
+// an arbitrary seed, or the committed key cut to 31 bytes / with one arbitrary
+// byte appended (values the native replay reproduces); open world: arbitrary bytes of 31..33 bytes
 func verifC02KeyItem(world int, committed []byte) []byte {
 	if world == 0 {
 		return verifC02Shaped("pk", 31, 33)
@@ -97,10 +98,11 @@ func verifC02KeyItem(world int, committed []byte) []byte {
 	case 1:
 		priv := ed25519.NewKeyFromSeed(verifBytesN("pk.seed", 32))
 		return []byte(priv[32:])
-	case 2:
-		return verifBytesN("pk", 31)
+	case 2: // the committed key without its last byte
+		return append([]byte{}, committed[:len(committed)-1]...)
 	}
-	return verifBytesN("pk", 33)
+	// the committed key with one arbitrary byte appended
+	return append(append([]byte{}, committed...), verifU8("pk.tail"))
 }
 
 // the spending transaction; field values that only flow into the ids are arbitrary
@@ -162,7 +164,7 @@ func verifC02SigItem(world int, s *verifC02Spend, prog []byte, sighash []byte, s
 	if world == 0 {
 		return verifC02Shaped("sig", 63, 65)
 	}
-	kind := verifChoice("sig.kind", 4)
+	kind := verifChoice("sig.kind", 6)
 	if kind == 3 {
 		return verifBytesN("sig.junk", 1)
 	}
@@ -172,7 +174,7 @@ func verifC02SigItem(world int, s *verifC02Spend, prog []byte, sighash []byte, s
 	priv := ed25519.NewKeyFromSeed(verifBytesN("sig.seed", 32))
 	var msg []byte
 	switch kind {
-	case 0:
+	case 0, 4, 5:
 		msg = sighash
 	case 1:
 		msg = verifC02SiblingSigHash(s, prog)
@@ -182,6 +184,12 @@ func verifC02SigItem(world int, s *verifC02Spend, prog []byte, sighash []byte, s
 	}
 	sig := ed25519.Sign(priv, msg)
 	verifC02Honest = append(verifC02Honest, verifC02Triple{pk: priv[32:], msg: msg, sig: sig})
+	switch kind {
+	case 4: // a real signature over this transaction's signature hash with one arbitrary byte appended
+		return append(append([]byte{}, sig...), verifU8("sig.tail"))
+	case 5: // ... or without its last byte: a modified signature is not a valid signature
+		return append([]byte{}, sig[:len(sig)-1]...)
+	}
 	return sig
 }
 
